@@ -142,6 +142,7 @@ class Model(object):
         self.f = set()           # features exercised
         self.steps = 0
         self.ntok = 0
+        self.argstack = []       # macros whose arguments are being pre-expanded
         self.max_tokens = max_tokens
         self.max_steps = max_steps
         self.out = []
@@ -394,6 +395,8 @@ class Model(object):
                 out.append(t)
                 continue
             self.tick()
+            if t.s in self.argstack and (m.params is None or (inp and inp[-1].s == "(")):
+                self.f.add("same-macro-in-own-arg")
             if m.params is None:
                 res = self.subst(m, None, t.hs | {t.s}, t)
             else:
@@ -571,12 +574,16 @@ class Model(object):
                 if re.search(r"[ \t]", t.s):
                     self.f.add("lit-has-space")
 
-    def expanded_arg(self, args, idx, cache):
+    def expanded_arg(self, m, args, idx, cache):
         if idx not in cache:
             if idx >= len(args):
                 cache[idx] = []
             else:
-                cache[idx] = self.expand([t.cp() for t in args[idx]])
+                self.argstack.append(m.name)
+                try:
+                    cache[idx] = self.expand([t.cp() for t in args[idx]])
+                finally:
+                    self.argstack.pop()
 
                 def commas(ts):
                     d = n = 0
@@ -620,7 +627,7 @@ class Model(object):
                     if any(t.k == "id" and t.s in self.macros for t in raw):
                         self.f.add("paste-operand-macro")
                 else:
-                    seq = [t.cp(va=True) for t in self.expanded_arg(args, idx, cache)]
+                    seq = [t.cp(va=True) for t in self.expanded_arg(m, args, idx, cache)]
                     if raw and not seq:
                         self.f.add("arg-expands-empty")
                 if seq:
@@ -629,7 +636,7 @@ class Model(object):
                     seq = [Tok("pm", "", ws=True)]      # remember the white space of an empty substitution
             elif kind == "opt":
                 va_raw = args[nva] if nva < len(args) else []
-                va_exp = self.expanded_arg(args, nva, cache)
+                va_exp = self.expanded_arg(m, args, nva, cache)
                 if va_raw and not va_exp:
                     raise Ambiguous("__VA_OPT__ with variable arguments that expand to nothing")
                 if va_exp:
